@@ -176,4 +176,31 @@ theorem prev_ord (x : Date) (h : x.Valid) : x.prev.Valid ∧ x.prev.ord = x.ord 
         rw [e] at this
         cases hl : isLeap (x.y - 1) <;> simp [hl, dbm, dbm0] at * <;> omega
 
+/-- a valid date with year 1…9990 has an ordinal well inside `datetime`'s range -/
+theorem ord_bounds_of_year (d : Date) (hv : d.Valid) (hy : 1 ≤ d.y ∧ d.y ≤ 9990) : 1 ≤ d.ord ∧ d.ord + 400 ≤ maxOrd := by
+  constructor
+  · have h1 := ord_pos_in_year d hv
+    have h2 := dby_mono (d.y - 1).toNat 1
+    have e : (1 : Int) + ((d.y - 1).toNat : Int) = d.y := by omega
+    rw [e] at h2
+    have : dby 1 = 0 := by decide
+    omega
+  · have hv9 : (⟨9992, 1, 1⟩ : Date).Valid := (Date.valid_iff _).mp (by decide)
+    have := ord_strict_year d ⟨9992, 1, 1⟩ hv hv9 (by simp; omega)
+    have e : (⟨9992, 1, 1⟩ : Date).ord + 2000 ≤ maxOrd := by decide
+    omega
+
+
+/-- minute arithmetic: `ofMinutes` inverts `minutes` on the range of `datetime` -/
+theorem ofMinutes_spec (n : Int) (h1 : 1 ≤ n / 1440) (h2 : n / 1440 ≤ maxOrd) :
+    (Ts.ofMinutes n).minutes = n ∧ (Ts.ofMinutes n).date.Valid ∧ 0 ≤ (Ts.ofMinutes n).h ∧ (Ts.ofMinutes n).h ≤ 23 ∧ 0 ≤ (Ts.ofMinutes n).mi ∧ (Ts.ofMinutes n).mi ≤ 59 := by
+  obtain ⟨hv, ho⟩ := ofOrd_spec (n / 1440) h1 h2
+  simp only [Ts.ofMinutes, Ts.minutes]
+  refine ⟨?_, hv, by omega, by omega, by omega, by omega⟩
+  rw [ho]; omega
+
+theorem addMinutes_spec (t : Ts) (n : Int) (h1 : 1 ≤ (t.minutes + n) / 1440) (h2 : (t.minutes + n) / 1440 ≤ maxOrd) :
+    (t.addMinutes n).minutes = t.minutes + n ∧ (t.addMinutes n).date.Valid ∧ 0 ≤ (t.addMinutes n).h ∧ (t.addMinutes n).h ≤ 23 ∧
+      0 ≤ (t.addMinutes n).mi ∧ (t.addMinutes n).mi ≤ 59 := ofMinutes_spec _ h1 h2
+
 end QuickAdd
